@@ -770,9 +770,20 @@ func (s *Server) handlePAP(session *Session, data []byte) {
 		session.SetState(StateIPCPNegotiation)
 		s.startIPCPNegotiation(session)
 	} else {
-		// Terminate
-		session.SetState(StateClosed)
+		// Terminate: a failed authentication ends the session
+		s.endSession(session)
 	}
+}
+
+// endSession ends a session on the server's initiative (authentication
+// failure): the client address goes back to the pool and the session
+// leaves the session table, as for a PADT or an LCP Terminate-Request.
+func (s *Server) endSession(session *Session) {
+	if s.clientIPPool != nil {
+		s.clientIPPool.Release(session.SessionID)
+	}
+	session.SetState(StateClosed)
+	s.sessions.RemoveSession(session.ID)
 }
 
 // startIPCPNegotiation initiates IPCP negotiation
